@@ -149,8 +149,55 @@ def run(chk):
         chk.count('roundtrip_ok')
         chk.distinct.add(want)
     chk.samples = [{'tree': pspec.walk(trees[0])[:200], 'yaml': bytes.fromhex(o1[idx[0][1] - 1].split()[-1][1:]).decode('utf-8', 'replace')[:300]}]
+    if not chk.violations:
+        failing_save_keeps_file(chk, exe)
     if broken and not chk.violations:
         chk.violation('obligation', 'proof/correspondence obligations that no longer check:\n' + '\n'.join(broken[:30]), nofail=True)
+
+
+def failing_save_keeps_file(chk, exe):
+    """a property that cannot be written (bytes that are not UTF-8) makes vnacal_save fail cleanly: the file saved before is still there and
+    loads to the same properties; after the offending property is removed the save works again"""
+    import tempfile, shutil
+    from props import calsim
+    import random
+    d = tempfile.mkdtemp(prefix='verif-c14-')
+    try:
+        path = os.path.join(d, 'keep.vnacal')
+        sc = calsim.Scenario(random.Random(3), 'T8', 1, 1, 1).begin()
+        sc.solt().solve().add_calibration(b'c')
+        hx = vlib.hexbytes
+        lines = sc.lines + ['cal property 0 -1 set ' + hx(b'operator=Alice'), 'cal save 0 ' + hx(path.encode()),
+                            'cal property 0 -1 set ' + hx(b'note=caf\xe9'), 'cal save 0 ' + hx(path.encode()),
+                            'cal load 1 ' + hx(path.encode()), 'cal property 1 -1 get ' + hx(b'operator'), 'cal free 1',
+                            'cal property 0 -1 delete ' + hx(b'note'), 'cal save 0 ' + hx(path.encode()), 'cal load 1 ' + hx(path.encode()), 'cal free 1', 'cal free 0', 'cal live']
+        out, rc, err = vlib.run_lines(exe, lines, timeout=120)
+        chk.evaluations += 1
+        if rc != 0 or len(out) != len(lines):
+            chk.violation('save-crash', 'vnacal_save with a property that is not UTF-8: crashed / sanitizer report: %s' % err[-800:], lines)
+            return
+        k = len(sc.lines)
+        s1, s2, ld, gt = out[k + 1], out[k + 3], out[k + 4], out[k + 5]
+        if not s1.startswith('ok'):
+            chk.violation('save-setup', 'the first vnacal_save fails: %s' % s1[:80], lines[:k + 2])
+            return
+        if s2.startswith('ok'):
+            # libyaml took the bytes: then the file has to load
+            if not ld.startswith('ok'):
+                chk.violation('save-unloadable', 'vnacal_save accepted a property value that is not UTF-8 and wrote a file vnacal_load refuses: %s' % ld[:80], lines[:k + 5])
+            return
+        if not ld.startswith('ok') or not gt.startswith('ok'):
+            chk.violation('save-destroys', 'a vnacal_save that failed (%s) destroyed the file saved before: vnacal_load says %s' % (s2[:40], ld[:80]), lines[:k + 6])
+            return
+        if not out[k + 8].startswith('ok') or not out[k + 9].startswith('ok'):
+            chk.violation('save-after-failure', 'after the failed save and the removal of the offending property, save / load fail: %s / %s' % (out[k + 8][:40], out[k + 9][:40]), lines[:k + 10])
+            return
+        if out[-1] != 'ok live=0':
+            chk.violation('save-leak', 'allocations remain after a failed vnacal_save: %s' % out[-1], lines)
+            return
+        chk.count('failing_save_keeps_file')
+    finally:
+        shutil.rmtree(d, ignore_errors=True)
 
 
 def replay(chk, path):
